@@ -738,6 +738,17 @@ def check_C15(ctx, rt):
                     add_violation(ctx, "C15:inverse-onehot", "one-hot decoding is not the padded string", string=s, back=back)
         elif w.startswith("err") and w not in ("err\tKeyError", "err\tValueError"):
             add_violation(ctx, "C15:error-class", "unexpected exception class", string=s, error=w)
+    # encoding_to_selfies checks its own enc_type first ("both" is not accepted there)
+    itos0 = {0: "[nop]", 1: "[C]", 2: "[F]"}
+    for et in ("label", "one_hot", "both", "", "Label"):
+        try:
+            w = "ok\t" + enc(sf.encoding_to_selfies([1, 2, 0] if et == "label" else [[0, 1, 0], [0, 0, 1], [1, 0, 0]], itos0, enc_type=et))
+        except Exception as e:  # noqa
+            w = "err\t" + type(e).__name__
+        lines.append("e2s\t%s\t1,2,0\t0,1,0;0,0,1;1,0,0\t%s" % (et or "-", itos_wire(itos0)))
+        expected.append(w)
+        if et not in ("label", "one_hot") and w != "err\tValueError":
+            add_violation(ctx, "C15:enc-type", "encoding_to_selfies accepts a bad enc_type", enc_type=et, result=w)
     rt.corr("selfies_to_encoding", lines, expected)
     # batch functions
     lines, expected = [], []
